@@ -16,7 +16,7 @@ seed=subprocess.run(['/verif/tools/seedmap.py'],capture_output=True,text=True).s
 nseed=len([d for d in os.listdir('/verif/seeded') if os.path.isdir('/verif/seeded/'+d)])
 k="""## Appendix K — seeded changes and which checks report them
 
-%d property-breaking changes written by sub-agents in ten rounds (each agent saw one property's text and a scratch
+%d property-breaking changes written by sub-agents in eleven rounds (each agent saw one property's text and a scratch
 worktree without the contract files; from round 3 on it was also told which mechanisms were already taken).  Every change
 compiles, passes the unedited test suite and was confirmed by running its demonstration on the original and the changed
 tree.  "Reported by" lists, per check that was run against the change, the failed obligations (function/kind:label);
